@@ -76,17 +76,20 @@ inline void minimise_graph_case(Case &c, const std::function<bool(const Case &)>
             budget--;
             if (still_fails(d)) { c = d; progress = true; }
         }
-        // simplify weights
+        // simplify weights (towards the smallest weight present: keeps the magnitudes, hence the exact-summability, of the case)
+        double wmin = 1;
+        if (!c.g.w.empty()) { wmin = c.g.w[0]; for (double x : c.g.w) wmin = std::min(wmin, x); }
+        if (c.wtype == "int" || wmin >= 1) wmin = 1;
         {
             Case d = c;
             bool ch = false;
-            for (auto &x : d.g.w) if (x != 1) { x = 1; ch = true; }
+            for (auto &x : d.g.w) if (x != wmin) { x = wmin; ch = true; }
             if (ch) { budget--; if (still_fails(d)) { c = d; progress = true; } }
         }
         for (int i = 0; i < c.g.m() && budget > 0; i++) {
-            if (c.g.w[i] == 1) continue;
+            if (c.g.w[i] == wmin) continue;
             Case d = c;
-            d.g.w[i] = 1;
+            d.g.w[i] = wmin;
             budget--;
             if (still_fails(d)) { c = d; progress = true; }
         }
